@@ -364,8 +364,8 @@ def replay(v, work):
         if c["call"] == "failing-save":
             fn = os.path.join(str(work), "replay_dest")
             if c["had_file"]:
-                with core.paused():
-                    tg.save(fn, c["format"], False, None, None, None, "silence")
+                with open(fn, "wb") as fd:
+                    fd.write(b"what the destination held before\n")
             call(tg.save, fn, c["format"], c["blanks"], c["minT"], c["maxT"], c["thr"], "silence")
         elif c["call"] == "agreement":
             agreement(tg, {"min": c["tg"]["min"], "max": c["tg"]["max"], "tiers": [dict(t, entries=[tuple(e) for e in t["entries"]]) for t in c["tg"]["tiers"]]}, c["blanks"], c["thr"])
